@@ -232,6 +232,8 @@ type ErrorResponse struct {
 	Status  int       `json:"status"`
 	Headers []Mapping `json:"headers,omitempty"`
 	Level   string    `json:"level"` // "method", "service", "api"
+	// BodyAttr: Body("attr") inside the error response (C12 mutants only)
+	BodyAttr string `json:"body_attr,omitempty"`
 }
 
 // HTTPEndpoint is the HTTP mapping of a method.
